@@ -29,6 +29,22 @@ fn bin_rt<T: Serialize + DeserializeOwned>(v: &T) -> Result<T, String> {
     bincode::deserialize(&s).map_err(|e| e.to_string())
 }
 
+fn ser<T: Serialize>(x: &T) -> Vec<u8> {
+    bincode::serialize(x).unwrap_or_default()
+}
+/// `clone()` reproduces the object and `clone_from()` turns any other object of the type into
+/// it (compared through the serialised form, not through the type's own `==`)
+fn clone_ok<T: Clone + Serialize>(a: &T, other: &T) -> bool {
+    let c = a.clone();
+    let mut d = other.clone();
+    d.clone_from(a);
+    ser(&c) == ser(a) && ser(&d) == ser(a) && ser(other) != ser(a)
+}
+/// the type's `==` agrees with equality of the serialised forms
+fn eq_sound<T: PartialEq + Serialize>(a: &T, b: &T) -> bool {
+    (a == b) == (ser(a) == ser(b)) && a == a && b == b
+}
+
 fn fail(st: &mut Stats, obj: &str, class: &str, what: String) {
     st.fail(Fail { check: "C16.codec".into(), signature: format!("C16/{}/{}", obj, class), what, case: json!({"note": "deterministic: re-run bin/check C16 to reproduce", "object": obj, "class": class}) });
 }
@@ -255,6 +271,53 @@ pub fn run() -> i32 {
             v.push(("PwHash/parts".into(), PwHash::from_parts(h, sa, cfg).to_string() == ph.to_string()));
             let fsx: PwHash<Vec<u8>, Vec<u8>> = PwHash::from_string(&ph.to_string()).unwrap();
             v.push(("PwHash/string".into(), fsx.to_string() == ph.to_string() && fsx.verify(&b"pw".to_vec()).is_ok()));
+            // the decoded object is the same object: hash, salt and every Config field
+            v.push(("PwHash/string->same-object".into(), ser(&fsx) == ser(&ph) && format!("{:?}", fsx.clone().into_parts().2) == format!("{:?}", ph.clone().into_parts().2)));
+            // Clone / clone_from / PartialEq of every object kind: a second object of the same type
+            // that differs in exactly one field each
+            {
+                let s2: [u8; 32] = karr(seed ^ 0x17, (ki + 1) % 5);
+                let kdf_ctx: Kdf<SB<32>, SB<8>> = Kdf::from_parts(s.into(), [0x5au8; 8].into());
+                let kdf_key: Kdf<SB<32>, SB<8>> = Kdf::from_parts(s2.into(), karr::<8>(seed, ki).into());
+                v.push(("Kdf/clone+clone_from".into(), clone_ok(&kdf, &kdf_ctx) && clone_ok(&kdf, &kdf_key) && clone_ok(&kdf_ctx, &kdf)));
+                v.push(("Kdf/derive-after-clone_from".into(), {
+                    let mut d = kdf_ctx.clone();
+                    d.clone_from(&kdf);
+                    d.derive_subkey_to_vec(9).ok() == kdf.derive_subkey_to_vec(9).ok()
+                }));
+                let kvk: Kdf<Vec<u8>, Vec<u8>> = Kdf::from_parts(s.to_vec(), vec![1u8; 8]);
+                let kvk2: Kdf<Vec<u8>, Vec<u8>> = Kdf::from_parts(s.to_vec(), vec![2u8; 8]);
+                v.push(("Kdf[vec]/clone+clone_from".into(), clone_ok(&kvk, &kvk2) && clone_ok(&kvk2, &kvk)));
+                let kpo: KeyPair<SB<32>, SB<32>> = KeyPair::from_seed(&s2);
+                let kp_mix: KeyPair<SB<32>, SB<32>> = KeyPair { public_key: kp.public_key.clone(), secret_key: kpo.secret_key.clone() };
+                v.push(("KeyPair/clone+clone_from".into(), clone_ok(&kp, &kpo) && clone_ok(&kp, &kp_mix)));
+                v.push(("KeyPair/eq".into(), eq_sound(&kp, &kpo) && eq_sound(&kp, &kp_mix) && eq_sound(&kp, &kp.clone())));
+                let skpo: SigningKeyPair<SB<32>, SB<64>> = SigningKeyPair::from_seed(&s2);
+                let skp_mix: SigningKeyPair<SB<32>, SB<64>> = SigningKeyPair { public_key: skp.public_key.clone(), secret_key: skpo.secret_key.clone() };
+                v.push(("SigningKeyPair/clone+clone_from".into(), clone_ok(&skp, &skpo) && clone_ok(&skp, &skp_mix)));
+                v.push(("SigningKeyPair/eq".into(), eq_sound(&skp, &skpo) && eq_sound(&skp, &skp_mix) && eq_sound(&skp, &skp.clone())));
+                let sess2: Session<SB<32>> = Session::new_server(&kp, &kp2.public_key).unwrap();
+                v.push(("Session/clone+clone_from".into(), clone_ok(&sess, &sess2)));
+                let ph2: PwHash<Vec<u8>, Vec<u8>> = PwHash::from_parts(ph.clone().into_parts().0, vec![3u8; 16 + ki], ph.clone().into_parts().2);
+                v.push(("PwHash/clone+clone_from".into(), clone_ok(&ph, &ph2)));
+                // messages: same signature / other message, other signature / same message
+                let sm: dryoc::sign::SignedMessage<SB<64>, Vec<u8>> = skp.sign(b"message one".to_vec()).unwrap();
+                let sm_o: dryoc::sign::SignedMessage<SB<64>, Vec<u8>> = skp.sign(b"message two".to_vec()).unwrap();
+                let sm_mix = dryoc::sign::SignedMessage::<SB<64>, Vec<u8>>::from_parts(sm.clone().into_parts().0, b"message two".to_vec());
+                let sm_mix2 = dryoc::sign::SignedMessage::<SB<64>, Vec<u8>>::from_parts(sm_o.clone().into_parts().0, b"message one".to_vec());
+                v.push(("SignedMessage/clone+clone_from".into(), clone_ok(&sm, &sm_o) && clone_ok(&sm, &sm_mix)));
+                v.push(("SignedMessage/eq".into(), eq_sound(&sm, &sm_o) && eq_sound(&sm, &sm_mix) && eq_sound(&sm, &sm_mix2) && eq_sound(&sm, &sm.clone())));
+                let ks = Keys::make(seed, 3, 2);
+                let b1: DryocSecretBox<SB<16>, Vec<u8>> = DryocSecretBox::encrypt(&b"payload one".to_vec(), &ks.n, &ks.k);
+                let b2: DryocSecretBox<SB<16>, Vec<u8>> = DryocSecretBox::encrypt(&b"payload two".to_vec(), &ks.n, &ks.k);
+                let b_mix = DryocSecretBox::<SB<16>, Vec<u8>>::from_parts(b1.clone().into_parts().0, b2.clone().into_parts().1);
+                v.push(("DryocSecretBox/clone+clone_from".into(), clone_ok(&b1, &b2) && clone_ok(&b1, &b_mix)));
+                v.push(("DryocSecretBox/eq".into(), eq_sound(&b1, &b2) && eq_sound(&b1, &b_mix) && eq_sound(&b1, &b1.clone())));
+                let x1: DryocBox<SB<32>, SB<16>, Vec<u8>> = DryocBox::encrypt(&b"payload one".to_vec(), &SB::<24>::from(&ks.n), &SB::<32>::from(&ks.pk_b), &SB::<32>::from(&ks.sk_a)).unwrap();
+                let x2: DryocBox<SB<32>, SB<16>, Vec<u8>> = DryocBox::encrypt(&b"payload two".to_vec(), &SB::<24>::from(&ks.n), &SB::<32>::from(&ks.pk_b), &SB::<32>::from(&ks.sk_a)).unwrap();
+                v.push(("DryocBox/clone+clone_from".into(), clone_ok(&x1, &x2)));
+                v.push(("DryocBox/eq".into(), eq_sound(&x1, &x2) && eq_sound(&x1, &x1.clone())));
+            }
             // stack arrays
             macro_rules! arr {
                 ($n:literal) => {{
